@@ -58,8 +58,10 @@ ScipyCon(cn) ==
     LET f == IF cn.sense = "<=" THEN Neg(cn.den) ELSE cn.den IN
     [type |-> IF cn.sense = "==" THEN "eq" ELSE "ineq", fun |-> f,
      jac |-> [v \in AllNames |-> DS(f, v)], vars |-> TVars(cn.den)]
+IsView(o) == o.kind \in {"V", "M"} \/ (o.kind = "S" /\ o.den.k = "var")
 Predict(o) ==
-    IF o.kind = "S" THEN ScalarPred(o.den)
+    IF "bounds" \in Want /\ IsView(o) THEN PRPredict(o)
+    ELSE IF o.kind = "S" THEN ScalarPred(o.den)
     ELSE IF o.kind = "PR" THEN PRPredict(o)
     ELSE IF o.kind = "C" THEN <<ScipyCon([den |-> o.den, sense |-> o.sense])>>
     ELSE IF o.kind = "CL" THEN [i \in 1..Len(o.cons) |-> ScipyCon(o.cons[i])]
